@@ -143,6 +143,9 @@ def cmd_table(a):
         m = json.load(open(mp))
         rp = os.path.join(SEEDED, d, "result.json")
         r = json.load(open(rp)) if os.path.exists(rp) else {}
+        if m.get("superseded"):
+            print("| %s | %s | superseded (no longer breaks the property on the current tree) | |" % (d, m["breaks_property"]))
+            continue
         rows.append((d, m["breaks_property"], r.get("detected_by_target_check"), ",".join(r.get("detected_by", []))))
     for row in rows:
         print("| %s | %s | %s | %s |" % row)
